@@ -15,8 +15,12 @@ def run(ctx, R, tier):
     distance_range(F, R)
     from .c01_out import run_out
     run_out(ctx, R, F)
+    # integer overflow is a panic in every build with overflow checks on (the profile `cargo test` and debug builds use): the
+    # arithmetic asserts of the audio path are obligations on every run, not only in the thorough tier
+    Fo = ctx.facts('default-ovf')
+    run_engine_a(R, Fo, groups=('rt', 'rt_cpal'), config='default-ovf')
     if tier == 'thorough':
-        for cfg in ('default-ovf', 'nodefault', 'serde', 'assert_no_alloc', 'cpal-only', 'wav-only'):
+        for cfg in ('nodefault', 'serde', 'assert_no_alloc', 'cpal-only', 'wav-only'):
             Fc = ctx.facts(cfg)
             groups = ('rt', 'rt_cpal') if cfg in ('cpal-only', 'assert_no_alloc', 'serde', 'default-ovf') else ('rt',)
             run_engine_a(R, Fc, groups=groups, config=cfg)
